@@ -2356,7 +2356,9 @@ class ComponentFlowIR:
         #       the basename of the fileref. If there is no fileref in the OutputReference and it appears in the args
         #       then raise an exception
 
-        for ref_str in parameters_output.union(arguments_output):
+        # VV: Iterate the references in a fixed (sorted) order - each iteration rewrites the arguments string
+        # so the order must not depend on the iteration order of a set (i.e. on PYTHONHASHSEED)
+        for ref_str in sorted(parameters_output.union(arguments_output)):
             ref = OutputReference.from_str(ref_str)
             try:
                 producer, fileref = ref.split(scopes=uid_to_name)
